@@ -1,6 +1,8 @@
 CONSTANTS
   MaxDown = 4
   MaxUp = 3
+  MaxDownX = 3
+  MaxUpX = 2
   MaxDepth = 3
   Sizes = {0, 2}
   UpSizes = {0, 2}
